@@ -177,6 +177,16 @@ Section P.
     apply filter_In in H. destruct H as [H _]. now exists f.
   Qed.
 
+  (* the children a release follows from one of its own (or already put) objects are its own or already put *)
+  Lemma dkids_mine t s i : Mid (Some t) s -> mine_or_put t s i ->
+    forall j, In j (dkids (cont s i)) -> mine_or_put t s j.
+  Proof.
+    intros HM Hi j Hj. apply dkids_In in Hj. destruct Hj as [f Hj]. destruct Hi as [Hi|Hi].
+    - destruct (m_closed _ _ HM i t f j Hi Hj) as [H|[_ H]]; [now left | now right].
+    - assert (Hp : In i (pool s)) by now apply (m_pool _ _ HM).
+      rewrite (m_clean _ _ HM i Hp) in Hj. destruct Hj.
+  Qed.
+
   Lemma walk_mid t b : forall s wl ok s',
     Mid (Some t) s -> (forall i, In i wl -> mine_or_put t s i) ->
     walk b s wl ok = (s', true) ->
@@ -200,12 +210,14 @@ Section P.
         destruct (put_node_mid t s i HM Hi Eo) as [HM1 HF1].
         assert (Hwl1 : forall j, In j (rev (dkids (cont s i)) ++ rest) -> mine_or_put t (put_node s i) j).
         { intros j Hj. apply (frame_mine t s); [assumption|]. apply in_app_iff in Hj. destruct Hj as [Hj|Hj].
-          - apply in_rev in Hj. apply dkids_In in Hj. destruct Hj as [f Hj].
-            destruct (m_closed _ _ HM i t f j Hi Hj) as [H|[_ H]]; [now left | now right].
+          - apply in_rev in Hj. apply (dkids_mine t s i HM (or_introl Hi) j Hj).
           - apply Hwl. now right. }
         destruct (IH _ _ _ _ HM1 Hwl1 Hw) as [_ [HM' HF']].
         split; [reflexivity|]. split; [assumption|]. eapply frame_trans; eauto.
-      + apply (IH s rest ok s' HM); [|assumption]. intros j Hj. apply Hwl. now right.
+      + apply (IH s (rev (dkids (cont s i)) ++ rest) ok s' HM); [|assumption].
+        intros j Hj. apply in_app_iff in Hj. destruct Hj as [Hj|Hj].
+        * apply in_rev in Hj. apply (dkids_mine t s i HM (Hwl i (or_introl eq_refl)) j Hj).
+        * apply Hwl. now right.
   Qed.
 
   Lemma fold_rel_flag f :
@@ -221,8 +233,9 @@ Section P.
   Proof.
     induction f as [|f IH]; intros s i; [reflexivity|].
     cbn [Own.rel]. destruct (container (nty (cont s i))).
-    - destruct (pooled_ty (nty (cont s i))); [|reflexivity].
-      cbn [snd]. rewrite (fold_rel_flag f IH); reflexivity.
+    - destruct (pooled_ty (nty (cont s i))).
+      + cbn [snd]. rewrite (fold_rel_flag f IH); reflexivity.
+      + apply (fold_rel_flag f IH). reflexivity.
     - apply walk_flag.
   Qed.
 
@@ -235,8 +248,6 @@ Section P.
     - cbn in Hr. inversion Hr; subst. split; [reflexivity | split; [assumption | apply frame_refl]].
     - cbn [Own.rel] in Hr. destruct (container (nty (cont s i))) eqn:Ec.
       2:{ eapply walk_mid; eauto. intros j [<-|[]]. assumption. }
-      destruct (pooled_ty (nty (cont s i))) eqn:Ep.
-      2:{ inversion Hr; subst. split; [reflexivity | split; [assumption | apply frame_refl]]. }
       assert (Hfold : forall l acc,
                  Mid (Some t) (fst acc) -> (forall c, In c l -> mine_or_put t (fst acc) c) ->
                  snd (fold_left (fun a c => rel f (fst a) c (snd a)) l acc) = true ->
@@ -253,14 +264,15 @@ Section P.
           { intros c' Hc'. apply (frame_mine t (fst acc)); [assumption|]. apply Hl. now right. }
           split; [assumption|]. split; [assumption|]. eapply frame_trans; eauto. }
       set (r1 := fold_left (fun a c => rel f (fst a) c (snd a)) (dkids (cont s i)) (s, ok)) in *.
+      destruct (pooled_ty (nty (cont s i))) eqn:Ep.
+      2:{ destruct (Hfold (dkids (cont s i)) (s, ok)) as [Hok [HM1 HF1]]; cbn [fst snd]; auto.
+          { intros c Hc. apply (dkids_mine t s i HM Hi c Hc). }
+          { fold r1. now rewrite Hr. }
+          fold r1 in HM1, HF1. rewrite Hr in HM1, HF1. cbn [fst snd] in *. auto. }
       pose proof (f_equal fst Hr) as Hs'. pose proof (f_equal snd Hr) as Hok'. cbn [fst snd] in Hs', Hok'.
       apply andb_true_iff in Hok'. destruct Hok' as [Hr1 Hpo].
       destruct (Hfold (dkids (cont s i)) (s, ok)) as [Hok [HM1 HF1]]; cbn [fst snd]; auto.
-      { intros c Hc. destruct Hi as [Hi|Hi].
-        - apply dkids_In in Hc. destruct Hc as [fl Hc].
-          destruct (m_closed _ _ HM i t fl c Hi Hc) as [H|[_ H]]; [now left | now right].
-        - assert (Hp : In i (pool s)) by now apply (m_pool _ _ HM).
-          apply dkids_In in Hc. destruct Hc as [fl Hc]. rewrite (m_clean _ _ HM i Hp) in Hc. destruct Hc. }
+      { intros c Hc. apply (dkids_mine t s i HM Hi c Hc). }
       fold r1 in HM1, HF1. cbn [fst snd] in Hok, HF1.
       unfold put_ok in Hpo. apply negb_true_iff in Hpo. apply memb_false in Hpo.
       assert (Hi1 : own (fst r1) i = Live t).
